@@ -519,6 +519,24 @@ fn run_world_op(op: &Value, ctx: &Ctx) -> Outcome {
             }
             stamp(path, op)
         }
+        "mkfiles" => {
+            // {"dir":..., "count":N, "prefix":"e"}: N small key-named value files (bulk population)
+            let dir = Path::new(op["dir"].as_str().unwrap());
+            std::fs::create_dir_all(dir)?;
+            let n = op["count"].as_u64().unwrap_or(0);
+            let prefix = op["prefix"].as_str().unwrap_or("e");
+            for i in 0..n {
+                let name = format!("{}{}", prefix, i);
+                let p = dir.join(&name);
+                {
+                    let mut f = File::create(&p)?;
+                    write_value(&mut f, &name, "bulk", 0, 1, ctx.chunk)?;
+                }
+                use std::os::unix::fs::PermissionsExt;
+                std::fs::set_permissions(&p, std::fs::Permissions::from_mode(0o444))?;
+            }
+            Ok(())
+        }
         "utimes" => stamp(Path::new(op["path"].as_str().unwrap()), op),
         "unlink" => std::fs::remove_file(op["path"].as_str().unwrap()),
         "chmod" => {
@@ -576,7 +594,7 @@ fn stamp(path: &Path, op: &Value) -> std::io::Result<()> {
 }
 
 fn is_world_op(api: &str) -> bool {
-    matches!(api, "mkdir" | "mkfile" | "utimes" | "unlink" | "chmod" | "sleep_ms")
+    matches!(api, "mkdir" | "mkfile" | "mkfiles" | "utimes" | "unlink" | "chmod" | "sleep_ms")
 }
 
 fn observe_handle(f: &mut File, chunk: usize) -> Value {
